@@ -197,6 +197,9 @@ func (E *Engine) buildQueryLevel(o *Obligation, level int) string {
 			if level == 4 && hasQuant(f.body) {
 				continue
 			}
+			if level == 5 && f.frame {
+				continue
+			}
 			asserts = append(asserts, tb.Implies(f.guard, f.body))
 		}
 	}
@@ -278,7 +281,7 @@ func solveAll(E *Engine, obls []*Obligation, opt solveOpts) {
 		f := filepath.Join(opt.dir, fmt.Sprintf("q%04d_%s.smt2", i, sanitizeFile(o.Name)))
 		var sf []string
 		if !o.Cover && !opt.noSlice {
-			for _, lv := range []int{3, 2} {
+			for _, lv := range []int{3, 2, 5} {
 				name := filepath.Join(opt.dir, fmt.Sprintf("q%04d_%s.slice%d.smt2", i, sanitizeFile(o.Name), lv))
 				if err := os.WriteFile(name, []byte(E.buildQueryLevel(o, lv)), 0o644); err == nil {
 					sf = append(sf, name)
